@@ -80,6 +80,24 @@ def run(ck):
                 report_case(ck, tag, x, y, [(u, v, x.point(u))], {'pr': pr, 'q': q}, exact_count=1 if linepair else None)
         ck.sample('constructed/Q=%d' % q, cases[0])
     ck.count('skipped_small_angle', skipped)
+    # point-symmetric pairs derived from the model's curves: a curve against its own half-turn about M = (B(1/3) + B(2/3))/2 crosses it at the
+    # parameter pairs (1/3, 2/3) and (2/3, 1/3) - two well separated crossings with mirrored parameters
+    seen_sym = set()
+    nsym = 0
+    for c in cases:
+        pr = c['pr']
+        if pr['n1'] < 2 or (tuple(pr['x1']), tuple(pr['y1'])) in seen_sym or nsym >= (12 if quick else 120):
+            continue
+        seen_sym.add((tuple(pr['x1']), tuple(pr['y1'])))
+        a = cm.mk(pr['x1'], [v * (1 if i % 2 else -1) for i, v in enumerate(pr['y1'])])      # alternate the sign of y: an S / zig-zag shape whose tangent turns
+        M = (a.point(1 / 3.0) + a.point(2 / 3.0)) / 2
+        b = type(a)(*[2 * M - w for w in a.bpoints()])
+        if cm.angle_between(a, b, 1 / 3.0, 2 / 3.0) < 10 or abs(a.point(1 / 3.0) - a.point(2 / 3.0)) < 0.5:
+            continue
+        nsym += 1
+        ck.case(fp=('sym', str(pr['x1']), str(pr['y1'])), nontrivial=True)
+        report_case(ck, 'point-symmetric pair', a, b, [(1 / 3.0, 2 / 3.0, a.point(1 / 3.0)), (2 / 3.0, 1 / 3.0, a.point(2 / 3.0))], {'x1': pr['x1'], 'y1': pr['y1'], 'sym': True})
+    ck.count('point_symmetric_pairs', nsym)
     # exact counts: long horizontal line against a quadratic
     r = ck.tlc('Crossings', 'SPECIFICATION Spec\nCONSTANTS Q = 3\n Fams = {"count"}\nINVARIANT Dump\n', workers=1, coverage=False)
     cases = [c for c in r.cases if c['count'] >= 0]
@@ -121,12 +139,18 @@ def run(ck):
             ck.disagree(key='bezier_intersections/duplicate-crossing', site='svgpathtools/bezier.py:bezier_intersections',
                         what='%r x %r: the crossing near %r is reported %d times' % (a, b, dup[0][0], 1 + sum(1 for d_ in dup if d_[0] == dup[0][0])),
                         case={'za': [str(w) for w in za], 'zb': [str(w) for w in zb]}, expected=1, observed=[(float(u), float(v)) for u, v in res], driver='generic')
-    for name, a, b, known in cm.arc_families():
+    for name, a, b, known in cm.arc_families() + cm.ellipse_families():
         ck.case(fp=('arc', name, repr(a), repr(b)), nontrivial=True)
         report_case(ck, name, a, b, known, {'family': name, 'a': repr(a), 'b': repr(b)}, exact_count=len(known), ptol=1e-4)
         report_case(ck, name + ' swapped', b, a, [(k[1], k[0], k[2]) for k in known], {'family': name}, exact_count=len(known), ptol=1e-4)
     for name, p1, p2, exp in cm.path_families():
         ck.case(fp=('path', name), nontrivial=True)
+        far = 200000 + 300000j          # the same configuration far from the origin: same crossings
+        n_near = len(p1.intersect(p2))
+        n_far = len(p1.translated(far).intersect(p2.translated(far)))
+        if n_far != n_near:
+            ck.disagree(key='Path.intersect/far-from-origin', site='svgpathtools/path.py:Path.intersect', what='%s translated by %r: %d crossings reported, %d near the origin' % (name, far, n_far, n_near),
+                        case={'family': name, 'far': True}, expected=n_near, observed=n_far, driver='path')
         for A, B, sw in ((p1, p2, False), (p2, p1, True)):
             res = A.intersect(B)
             for (i1, i2, pt) in exp:
